@@ -463,6 +463,17 @@ def rely(ex, what):
             P._retry = mk_int(z3.If(z3.And(was_pending, st.t == RESULT), z3.IntVal(0), iterm(P._retry)))
     g.armed = ex.fresh_int("armed_count")
     g.seg_timer = P._timer
+    lk = P._lock
+    if g.multi_caller and lk is not None and lk.is_locked is False and ex.choose(2, tag="other.task.runs") == 1:
+        # several callers: whenever this task is suspended while the lock is free, another task may take it and start
+        # its own request (binds its command and future, transmits)
+        lk.is_locked, lk.owner = True, 2
+        g.lock_events.append(("acquire", lk, 2))
+        g.other_started = True
+        P.command = make_command(ex, "other_cmd")
+        P.response_future = ex.new_object(GFuture(PENDING))
+        P.response_future.exc = lazy_exc
+        g.tx = mk_int(iterm(g.tx) + 1)
     for name, c in invariant(ex, P, g):
         ex.assume(c)
 
@@ -475,6 +486,9 @@ def send_request_segment(ex, kind, case=None, entry=None):
         ex.forced = {"lock?": case % 2, "transport": (case // 2) % 3, "future?": (case // 6) % 2}
     P, g = make_proto(ex, kind)
     lockmode = ("none", "free", "stale_loop")[ex.choose(2, tag="lock?")] if entry is None else entry
+    if entry == "contended":
+        lockmode = "free"
+        g.multi_caller = True
     arbitrary_state(ex, P, g, kind, lock=lockmode, lazy=True)
     ex.unit = f"{type(P).__name__}.send_request"
     g.suspensions.append(rely)
@@ -504,6 +518,8 @@ def send_request_segment(ex, kind, case=None, entry=None):
     timer_obligations(ex, P, g, g.events[getattr(g, "seg_start", 0):], getattr(g, "seg_timer", None))
     # callers queue on the lock object: replacing it while the event loop is the same lets two requests run at once
     ex.check("C06_lock_object_is_kept_while_the_loop_is_the_same", lock0 is None or P._lock is lock0)
+    if entry == "contended":
+        return          # judged by the lock / transmission obligations above (other tasks' transmissions are in g.tx)
     if entry == "other":
         # cancelled while queued behind another task's request: that request must not be disturbed
         lk = P._lock
